@@ -80,6 +80,7 @@ type upH struct {
 	chanTx  []int
 	pc      string
 	loop    string
+	panicked string
 }
 
 type upUnknown struct{ wire.MsgVerAck }
@@ -146,8 +147,13 @@ func newUP(t *testing.T, height int) *upH {
 		}
 	}
 	go func() {
+		defer func() {
+			if e := recover(); e != nil { // a panic in this goroutine takes the whole node down
+				h.panicked = fmt.Sprintf("PANIC in the untrusted connection's read loop: %v", e)
+			}
+			close(h.ended)
+		}()
 		u.monitorIncoming(ctx)
-		close(h.ended)
 	}()
 	if !h.await("unt.loop") {
 		t.Fatalf("the read loop did not start")
@@ -289,6 +295,9 @@ func (h *upH) step(a upAct) (res string) {
 		}
 		h.await("unt.loop")
 		h.pc = "top"
+		if h.panicked != "" {
+			return h.panicked
+		}
 	case "Broadcast":
 		if err := h.u.BroadcastTxs(ctx, []*wire.MsgTx{h.txs[int(a.M.X.(float64))]}); err != nil {
 			return "broadcast: " + err.Error()
